@@ -163,6 +163,7 @@ type fcase struct {
 	orders    [][]int
 	scripts   map[int][]reply
 	batches   [][]rec
+	stopAt    int // harness-only (component funnelstop): graceful Stop after this many log events
 }
 
 func (c *fcase) line() string {
